@@ -14,6 +14,9 @@
 //! generator flags and the valuations, so that `c06 text <file> <cfg>` on exactly that text
 //! reproduces the case (replay / corpus).
 //!
+//! Constructors with an argument of type `expr L` / `var L` / `simple L` are printed with the language
+//! made explicit (`@ASimple IL x`, `@SWhile IL id c b`, ...): Coq cannot infer `L` from `iexpr`.
+//!
 //! usage: c06 gen <n> | text <file> <cfg>
 use std::collections::{BTreeMap, HashMap, HashSet};
 use std::fmt::Write as _;
@@ -23,7 +26,11 @@ use truth::passes;
 use truth::vm::AstVm;
 use verif_harness::util::*;
 
+/// AstVm iteration limits: nested code 3000; flat code 5900 (it executes more statements: labels, jumps,
+/// scope ends; the model's FUEL for the flat run is 6000); deciding re-runs 60000.
 const MAX_ITER: u32 = 3000;
+const MAX_ITER_FLAT: u32 = 5900;
+const MAX_ITER_RERUN: u32 = 60000;
 const REGS: [i32; 6] = [10000, 10001, 10002, 10003, 10004, 10005];
 const DATA_REGS: [i32; 3] = [10000, 10001, 10002];
 const COUNT_REGS: [i32; 2] = [10003, 10004];
@@ -37,8 +44,11 @@ fn z(i: i64) -> String { if i < 0 { format!("({})", i) } else { format!("{}", i)
 // language configurations
 
 /// opcode 40: CountJmp() (`--c != 0`); opcode 41: CountJmp(op=">") (`--c > 0`).
+/// The plain opcodes 10..15 used by the generator get no signature: AstVm does not need one, and with a
+/// signature present resolve_names leaves the names in surplus arguments unresolved (aliases_to_raw then
+/// panics with "(bug!) name 'L0' has not yet been resolved!").
 fn mapfile(cfg: u32) -> String {
-    let mut s = String::from("!anmmap\n!ins_signatures\n40 Sot\n41 Sot\n10 S\n11 SS\n13 S\n14 SS\n");
+    let mut s = String::from("!anmmap\n!ins_signatures\n40 Sot\n41 Sot\n");
     match cfg {
         0 => {},
         1 => s.push_str("!ins_intrinsics\n40 CountJmp()\n"),
@@ -130,9 +140,9 @@ fn coq_obs(o: &Obs) -> String {
     }
 }
 
-fn run_vm(stmts: &[Sp<ast::Stmt>], ctx: &CompilerContext<'_>, val: &Val) -> Obs {
+fn run_vm(stmts: &[Sp<ast::Stmt>], ctx: &CompilerContext<'_>, val: &Val, max_iter: u32) -> Obs {
     let r = catch(|| {
-        let mut vm = AstVm::new().with_max_iterations(MAX_ITER);
+        let mut vm = AstVm::new().with_max_iterations(max_iter);
         vm.time = val.t0;
         for (k, &r) in REGS.iter().enumerate() { vm.set_reg(RegId(r), ScalarValue::Int(val.regs[k])); }
         vm.run(stmts, ctx);
@@ -195,7 +205,7 @@ fn conv_user_var(v: &ast::Var) -> Result<i64, String> {
     match conv_var(v)? { V::User(u) => Ok(u), V::Temp(n) => Err(format!("unsupported: temporary count{} in a user position", n)) }
 }
 fn coq_fvar(v: &ast::Var) -> Result<String, String> {
-    Ok(match conv_var(v)? { V::User(u) => format!("(FUser {})", z(u)), V::Temp(n) => format!("(FTemp {}%nat)", n) })
+    Ok(match conv_var(v)? { V::User(u) => format!("(@FUser IL {})", z(u)), V::Temp(n) => format!("(FTemp {}%nat)", n) })
 }
 fn coq_bop(op: BinOpKind) -> Result<&'static str, String> {
     Ok(match op {
@@ -254,7 +264,7 @@ impl<'a, 'ctx> Conv<'a, 'ctx> {
                     let opcode = match &name.value { ast::CallableName::Ins { opcode, .. } => *opcode, _ => return Err("unsupported: named call".into()) };
                     let mut a = vec![];
                     for x in args { a.push(coq_expr(x)?); }
-                    format!("(ASimple (XCall {} [{}]))", opcode, a.join("; "))
+                    format!("(@ASimple IL (XCall {} [{}]))", opcode, a.join("; "))
                 },
                 other => return Err(format!("unsupported: expression statement {}", other.descr())),
             },
@@ -262,10 +272,10 @@ impl<'a, 'ctx> Conv<'a, 'ctx> {
                 let v = conv_user_var(var)?;
                 let e = coq_expr(value)?;
                 match op.value {
-                    ast::AssignOpKind::Assign => format!("(ASimple (XAssign {} {}))", z(v), e),
-                    ast::AssignOpKind::Add => format!("(ASimple (XOpAssign {} OAdd {}))", z(v), e),
-                    ast::AssignOpKind::Sub => format!("(ASimple (XOpAssign {} OSub {}))", z(v), e),
-                    ast::AssignOpKind::Mul => format!("(ASimple (XOpAssign {} OMul {}))", z(v), e),
+                    ast::AssignOpKind::Assign => format!("(@ASimple IL (XAssign {} {}))", z(v), e),
+                    ast::AssignOpKind::Add => format!("(@ASimple IL (XOpAssign {} OAdd {}))", z(v), e),
+                    ast::AssignOpKind::Sub => format!("(@ASimple IL (XOpAssign {} OSub {}))", z(v), e),
+                    ast::AssignOpKind::Mul => format!("(@ASimple IL (XOpAssign {} OMul {}))", z(v), e),
                     other => return Err(format!("unsupported: assignment operator {:?}", other)),
                 }
             },
@@ -283,7 +293,7 @@ impl<'a, 'ctx> Conv<'a, 'ctx> {
                     ks.push(format!("{}%nat", k));
                     inits.push(match init { Some(e) => format!("({}, Some {})", z(k), coq_expr(e)?), None => format!("({}, None)", z(k)) });
                 }
-                format!("(ADecl [{}] (XDecl [{}]))", ks.join("; "), inits.join("; "))
+                format!("(@ADecl IL [{}] (XDecl [{}]))", ks.join("; "), inits.join("; "))
             },
             _ => return Ok(None),
         }))
@@ -304,33 +314,29 @@ impl<'a, 'ctx> Conv<'a, 'ctx> {
         Ok(match &stmt.kind {
             ast::StmtKind::Jump(ast::StmtJumpKind::BreakContinue { loop_id, .. }) => format!("(SBreak {})", loop_id_num(loop_id)?),
             ast::StmtKind::CondJump { keyword, cond, jump: ast::StmtJumpKind::BreakContinue { loop_id, .. } }
-                => format!("(SCondBreak {} {} {})", coq_kw(keyword.value), coq_expr(cond)?, loop_id_num(loop_id)?),
+                => format!("(@SCondBreak IL {} {} {})", coq_kw(keyword.value), coq_expr(cond)?, loop_id_num(loop_id)?),
             ast::StmtKind::Block(b) => format!("(SBlock {})", self.block(b)?),
             ast::StmtKind::CondChain(ast::StmtCondChain { cond_blocks, else_block }) => {
-                let mut rest = match else_block { Some(b) => format!("(CElse {})", self.block_later(b)), None => "CEnd".to_string() };
-                // blocks must be converted in document order (declarations are recorded in order; harmless otherwise)
+                // blocks are converted in document order
                 let mut conv = vec![];
                 for cb in cond_blocks { conv.push((coq_kw(cb.keyword.value), coq_expr(&cb.cond)?, self.block(&cb.block)?)); }
-                if let Some(b) = else_block { rest = format!("(CElse {})", self.block(b)?); }
-                for (k, c, b) in conv.iter().skip(1).rev() { rest = format!("(CElif {} {} {} {})", k, c, b, rest); }
+                let mut rest = match else_block { Some(b) => format!("(CElse {})", self.block(b)?), None => "CEnd".to_string() };
+                for (k, c, b) in conv.iter().skip(1).rev() { rest = format!("(@CElif IL {} {} {} {})", k, c, b, rest); }
                 let (k, c, b) = conv.first().ok_or("empty cond chain")?;
-                format!("(SCond {} {} {} {})", k, c, b, rest)
+                format!("(@SCond IL {} {} {} {})", k, c, b, rest)
             },
             ast::StmtKind::Loop { loop_id, block, .. } => format!("(SLoop {} {})", loop_id_num(loop_id)?, self.block(block)?),
             ast::StmtKind::While { loop_id, do_keyword, cond, block, .. } => {
-                let ctor = if do_keyword.is_some() { "SDoWhile" } else { "SWhile" };
+                let ctor = if do_keyword.is_some() { "@SDoWhile IL" } else { "@SWhile IL" };
                 format!("({} {} {} {})", ctor, loop_id_num(loop_id)?, coq_expr(cond)?, self.block(block)?)
             },
             ast::StmtKind::Times { loop_id, clobber, count, block, .. } => {
                 let cl = match clobber { Some(v) => format!("(Some {})", z(conv_user_var(v)?)), None => "None".to_string() };
-                format!("(STimes {} {} {} {})", loop_id_num(loop_id)?, cl, coq_expr(count)?, self.block(block)?)
+                format!("(@STimes IL {} {} {} {})", loop_id_num(loop_id)?, cl, coq_expr(count)?, self.block(block)?)
             },
             other => return Err(format!("unsupported: statement {}", other.descr())),
         })
     }
-    // placeholder used only to build the initial value of `rest` above (overwritten when an else block exists)
-    fn block_later(&mut self, _b: &ast::Block) -> String { String::new() }
-
     /// One statement of the desugared (flat) code.
     fn finstr(&mut self, stmt: &Sp<ast::Stmt>) -> Result<String, String> {
         if stmt.diff_label.is_some() { return Err("unsupported: difficulty label".into()); }
@@ -342,7 +348,7 @@ impl<'a, 'ctx> Conv<'a, 'ctx> {
                 if orig { format!("(FAtom {})", self.atom(&stmt.value)?.ok_or("not an atom")?) }
                 else {
                     if op.value != ast::AssignOpKind::Assign { return Err("unsupported: generated compound assignment".into()); }
-                    format!("(FSet {} {})", coq_fvar(var)?, coq_expr(value)?)
+                    format!("(@FSet IL {} {})", coq_fvar(var)?, coq_expr(value)?)
                 }
             },
             ast::StmtKind::Declaration { vars, .. } => {
@@ -372,7 +378,7 @@ impl<'a, 'ctx> Conv<'a, 'ctx> {
             ast::StmtKind::CondJump { keyword, cond, jump: ast::StmtJumpKind::Goto(g) } => {
                 if g.time.is_some() { return Err("unsupported: goto with time".into()); }
                 let dest = g.destination.value.as_str();
-                let fc = if orig { format!("(CExpr {})", coq_expr(cond)?) }
+                let fc = if orig { format!("(@CExpr IL {})", coq_expr(cond)?) }
                 else if let Some(v) = is_predec(cond) { self.saw_predec = true; format!("(CPredec {})", coq_fvar(v)?) }
                 else {
                     match &cond.value {
@@ -380,7 +386,7 @@ impl<'a, 'ctx> Conv<'a, 'ctx> {
                             => { self.saw_predec_gt = true; format!("(CPredecGt {})", coq_fvar(is_predec(a).unwrap())?) },
                         ast::Expr::BinOp(a, op, b) if op.value == BinOpKind::Eq && is_lit(b, 0) && dest.starts_with("@times_zero#") && matches!(&a.value, ast::Expr::Var(_))
                             => match &a.value { ast::Expr::Var(v) => format!("(CIsZero {})", coq_fvar(v)?), _ => unreachable!() },
-                        other => format!("(CExpr {})", coq_expr(other)?),
+                        other => format!("(@CExpr IL {})", coq_expr(other)?),
                     }
                 };
                 format!("(FCondGoto {} {} {})", coq_kw(keyword.value), fc, coq_label(dest)?)
@@ -427,7 +433,7 @@ fn pipeline(text: &str, cfg: u32, vals: &[Val]) -> Outcome {
     let (user_defs, orig_ids) = (conv.user_defs, conv.orig_ids);
 
     // AstVm before
-    let before: Vec<Obs> = vals.iter().map(|v| run_vm(&ast.0, &*truth.ctx(), v)).collect();
+    let mut before: Vec<Obs> = vals.iter().map(|v| run_vm(&ast.0, &*truth.ctx(), v, MAX_ITER)).collect();
 
     // desugar
     let mut ast2 = ast.clone();
@@ -444,17 +450,27 @@ fn pipeline(text: &str, cfg: u32, vals: &[Val]) -> Outcome {
     let (saw_predec, saw_predec_gt) = (conv.saw_predec, conv.saw_predec_gt);
 
     // AstVm after
-    let after: Vec<Obs> = vals.iter().map(|v| run_vm(&ast2.0, &*truth.ctx(), v)).collect();
+    let after: Vec<Obs> = vals.iter().map(|v| run_vm(&ast2.0, &*truth.ctx(), v, MAX_ITER_FLAT)).collect();
 
     let mut runs = vec![];
     let mut fails = vec![];
     let (mut limits, mut panics) = (0u64, 0u64);
     for (i, v) in vals.iter().enumerate() {
         let regs = REGS.iter().zip(v.regs.iter()).map(|(r, x)| format!("({}, {})", r, z(*x as i64))).collect::<Vec<_>>().join("; ");
+        // The two iteration counters are not comparable.  When exactly one side hit its limit, that side
+        // is run again with a much larger limit.  A completed re-run of the nested code replaces the
+        // observation (the model's fuel for nested code bounds the depth, not the length); a re-run of the
+        // flat code is used by the oracle only (the term keeps ILimit, which the model accepts).
+        if before[i] == Obs::Limit && after[i] != Obs::Limit {
+            let again = run_vm(&ast.0, &*truth.ctx(), v, MAX_ITER_RERUN);
+            if again != Obs::Limit { before[i] = again; }
+        }
+        let oa = if after[i] == Obs::Limit && before[i] != Obs::Limit { run_vm(&ast2.0, &*truth.ctx(), v, MAX_ITER_RERUN) } else { after[i].clone() };
+        let ob = before[i].clone();
         runs.push(format!("({}, [{}], {}, {})", z(v.t0 as i64), regs, coq_obs(&before[i]), coq_obs(&after[i])));
         for o in [&before[i], &after[i]] { match o { Obs::Limit => limits += 1, Obs::Panic(_) => panics += 1, _ => {} } }
-        if !obs_same(&before[i], &after[i]) {
-            fails.push((i, format!("{} [t0={} regs={:?}]", obs_diff(&before[i], &after[i]), v.t0, v.regs)));
+        if !obs_same(&ob, &oa) {
+            fails.push((i, format!("{} [t0={} regs={:?}]", obs_diff(&ob, &oa), v.t0, v.regs)));
         }
     }
     let term = format!("KProg {} {} [{}] [{}]", flavour(cfg), p, flat.join("; "), runs.join("; "));
@@ -635,7 +651,7 @@ impl<'a> Gen<'a> {
             10..=15 => self.assign(false),
             16..=19 => self.assign(true),
             20..=22 => self.decl(),
-            23..=27 => self.time_label(false),
+            23..=27 => { let abs = self.nonmono && self.rng.chance(1, 2); self.time_label(abs) },
             _ => self.time_label(true),
         }
     }
@@ -877,7 +893,7 @@ fn process(src: &str, cfg: u32, flags: &str, vals: &[Val], tot: &mut Totals) {
             tot.rejected += 1;
             let key: String = why.chars().take(60).collect();
             *tot.reject_reasons.entry(key).or_insert(0) += 1;
-            if why.contains("panic") { println!("ORACLE-FAIL\tfront-end panic\t{}\t{}\t{}", one_line(&why), one_line(src), cfg); }
+            println!("REJECTED\t{}\t{}\t{}", one_line(&why), one_line(src), cfg);
         },
         Outcome::DesugarFailed(msg) => {
             tot.desugar_failed += 1;
